@@ -450,32 +450,54 @@ inductive Filter where
   | other (name : Str)
   deriving DecidableEq, Repr
 
-/-- `GrokFilter::try_from(&Function)`. `nullIf()` with an empty argument list indexes `args[0]`
-    and panics. `array`/`keyvalue`/`date` are outside the model. -/
-def filterOf (f : Fn) : Out Filter :=
-  let n := f.name
-  if n = cs!"scale" then
-    match f.args with
-    | some (.lit (.int i) :: _) => .ok (.scale (F64.ofInt i))
-    | some (.lit (.float b) :: _) => .ok (.scale b)
-    | _ => .err .invalidArgs
-  else if n = cs!"integer" then .ok .integer
-  else if n = cs!"integerExt" then .ok .integerExt
-  else if n = cs!"number" then .ok .number
-  else if n = cs!"numberExt" then .ok .numberExt
-  else if n = cs!"lowercase" then .ok .lowercase
-  else if n = cs!"uppercase" then .ok .uppercase
+/-- the `match f.name.as_str()` of `GrokFilter::try_from`. -/
+inductive FilterKind where
+  | scale | integer | integerExt | number | numberExt | lowercase | uppercase | boolean | nullIf
+  | opaque        -- json, rubyhash, querystring, decodeuricomponent, xml: accepted, application not modelled
+  | unmodelled    -- array, keyvalue: own argument validation, outside the model
+  | unknown
+  deriving DecidableEq, Repr
+
+def filterKind (n : Str) : FilterKind :=
+  if n = cs!"scale" then .scale
+  else if n = cs!"integer" then .integer
+  else if n = cs!"integerExt" then .integerExt
+  else if n = cs!"number" then .number
+  else if n = cs!"numberExt" then .numberExt
+  else if n = cs!"lowercase" then .lowercase
+  else if n = cs!"uppercase" then .uppercase
   else if n = cs!"json" || n = cs!"rubyhash" || n = cs!"querystring" || n = cs!"decodeuricomponent" || n = cs!"xml" then
-    .ok (.other f.name)
-  else if n = cs!"boolean" then .ok .boolean
-  else if n = cs!"nullIf" then
-    match f.args with
-    | none => .err .invalidArgs
-    | some [] => .panic
-    | some (.lit (.str b) :: _) => .ok (.nullIf b)
-    | some _ => .err .invalidArgs
-  else if n = cs!"array" || n = cs!"keyvalue" then .oom
-  else .err .unknownFilter
+    .opaque
+  else if n = cs!"boolean" then .boolean
+  else if n = cs!"nullIf" then .nullIf
+  else if n = cs!"array" || n = cs!"keyvalue" then .unmodelled
+  else .unknown
+
+/-- `GrokFilter::try_from(&Function)`. `nullIf()` with an empty argument list indexes `args[0]`
+    and panics. -/
+def filterOf (f : Fn) : Out Filter :=
+  match filterKind f.name with
+  | .scale =>
+    (match f.args with
+     | some (.lit (.int i) :: _) => .ok (.scale (F64.ofInt i))
+     | some (.lit (.float b) :: _) => .ok (.scale b)
+     | _ => .err .invalidArgs)
+  | .integer => .ok .integer
+  | .integerExt => .ok .integerExt
+  | .number => .ok .number
+  | .numberExt => .ok .numberExt
+  | .lowercase => .ok .lowercase
+  | .uppercase => .ok .uppercase
+  | .opaque => .ok (.other f.name)
+  | .boolean => .ok .boolean
+  | .nullIf =>
+    (match f.args with
+     | none => .err .invalidArgs
+     | some [] => .panic
+     | some (.lit (.str b) :: _) => .ok (.nullIf b)
+     | some _ => .err .invalidArgs)
+  | .unmodelled => .oom
+  | .unknown => .err .unknownFilter
 
 /-! ## 4. Rule → regular-expression source and fields (`parse_grok_rule`, `resolve_grok_pattern`) -/
 
@@ -517,69 +539,129 @@ def lookupAlias : List (Str × Str) → Str → Option Str
   | [], _ => none
   | (k, v) :: rest, q => if k = q then some v else lookupAlias rest q
 
+/-- the `match match_fn.name.as_ref()` of `resolves_match_function`. -/
+inductive MatcherKind where
+  | regex | integer | integerExt | number | numberExt | date | other
+  deriving DecidableEq, Repr
+
+def matcherKind (n : Str) : MatcherKind :=
+  if n = cs!"regex" then .regex
+  else if n = cs!"integer" then .integer
+  else if n = cs!"integerExt" then .integerExt
+  else if n = cs!"number" then .number
+  else if n = cs!"numberExt" then .numberExt
+  else if n = cs!"date" then .date
+  else .other
+
+/-- a matcher with an implicit filter (`integer`, `number`, …): the filter goes to the front of the
+    field's filters, the library pattern `s` into the expression. -/
+def withFilter (grokAlias : Option Nat) (c : Ctx) (flt : Filter) (s : Str) : Ctx :=
+  let c1 := match grokAlias with
+    | some g => { c with fields := prependFilter c.fields g flt }
+    | none => c
+  c1.append s
+
 /-- `resolves_match_function` -/
 def resolveMatchFn (grokAlias : Option Nat) (p : Pat) (c : Ctx) : Out Ctx :=
-  let n := p.fn.name
-  let withFilter (flt : Filter) (s : Str) : Out Ctx :=
-    let c1 := match grokAlias with
-      | some g => { c with fields := prependFilter c.fields g flt }
-      | none => c
-    .ok (c1.append s)
-  if n = cs!"regex" then
-    match p.fn.args with
-    | some (.lit (.str b) :: _) => .ok (c.append b)
-    | _ => .err .invalidArgs
-  else if n = cs!"integer" then withFilter .integer cs!"integerStr"
-  else if n = cs!"integerExt" then withFilter .integerExt cs!"integerExtStr"
-  else if n = cs!"number" then withFilter .number cs!"numberStr"
-  else if n = cs!"numberExt" then withFilter .numberExt cs!"numberExtStr"
-  else if n = cs!"date" then
+  match matcherKind p.fn.name with
+  | .regex =>
+    (match p.fn.args with
+     | some (.lit (.str b) :: _) => .ok (c.append b)
+     | _ => .err .invalidArgs)
+  | .integer => .ok (withFilter grokAlias c .integer cs!"integerStr")
+  | .integerExt => .ok (withFilter grokAlias c .integerExt cs!"integerExtStr")
+  | .number => .ok (withFilter grokAlias c .number cs!"numberStr")
+  | .numberExt => .ok (withFilter grokAlias c .numberExt cs!"numberExtStr")
+  | .date =>
     -- the date matcher itself (time_format_to_regex, strptime conversion) is outside the model
-    match p.fn.args with
-    | some [.lit (.str _)] => .oom
-    | some [.lit (.str _), _] => .oom
-    | _ => .err .invalidArgs
-  else .ok (c.append p.fn.name)
+    (match p.fn.args with
+     | some [.lit (.str _)] => .oom
+     | some [.lit (.str _), _] => .oom
+     | _ => .err .invalidArgs)
+  | .other => .ok (c.append p.fn.name)
+
+/-- `match_name == "regex" || match_name == "date" || match_name == "boolean"` -/
+def isGroupMatcher (n : Str) : Bool := n = cs!"regex" || n = cs!"date" || n = cs!"boolean"
+
+/-- the first `match` of `resolve_grok_pattern`: a placeholder with a destination registers a
+    field under the next free name (`grok<fields.len()>`). -/
+def registerDest (p : Pat) (c : Ctx) : Out Ctx :=
+  match p.dest with
+  | some ⟨path, some f⟩ =>
+    (match filterOf f with
+     | .ok flt => .ok { c with fields := insertField c.fields c.fields.length ⟨path, [flt]⟩ }
+     | .err e => .err e
+     | .panic => .panic
+     | .oom => .oom
+     | .fuel => .fuel)
+  | some ⟨path, none⟩ => .ok { c with fields := insertField c.fields c.fields.length ⟨path, []⟩ }
+  | none => .ok c
+
+/-- `parse_alias`: `alias_stack` holds the aliases whose definitions are being expanded; a name
+    that is already there is a circular dependency (reported with the *first* name of the stack). -/
+def parseAlias (self : Str → Ctx → Out Ctx) (name def_ : Str) (c : Ctx) : Out Ctx :=
+  if c.stack.contains name then
+    .err (.circular (c.stack.headD []))
+  else
+    match self def_ { c with stack := c.stack ++ [name] } with
+    | .ok c' => .ok { c' with stack := c'.stack.dropLast }
+    | .err e => .err e
+    | .panic => .panic
+    | .oom => .oom
+    | .fuel => .fuel
+
+/-- `(?<grokN>` for a placeholder with a destination, `(?:` otherwise. -/
+def openGroup (grokAlias : Option Nat) (c : Ctx) : Ctx :=
+  match grokAlias with
+  | some g => c.append (cs!"(?<" ++ grokName g ++ cs!">")
+  | none => c.append cs!"(?:"
+
+/-- `:grokN}` or `}`: the end of a "pure" grok reference. -/
+def closePure (grokAlias : Option Nat) (c : Ctx) : Ctx :=
+  match grokAlias with
+  | some g => (c.append (':' :: grokName g)).append cs!"}"
+  | none => c.append cs!"}"
+
+/-- the matcher is not an alias: `regex`, `date`, `boolean` become a group of their own, anything
+    else a "pure" grok reference `%{name}` / `%{name:grokN}` for `Grok::compile`. -/
+def resolveBuiltin (grokAlias : Option Nat) (p : Pat) (c1 : Ctx) : Out Ctx :=
+  if isGroupMatcher p.fn.name then
+    match resolveMatchFn grokAlias p (openGroup grokAlias c1) with
+    | .ok c3 => .ok (c3.append cs!")")
+    | .err e => .err e
+    | .panic => .panic
+    | .oom => .oom
+    | .fuel => .fuel
+  else
+    match resolveMatchFn grokAlias p (c1.append cs!"%{") with
+    | .ok c3 => .ok (closePure grokAlias c3)
+    | .err e => .err e
+    | .panic => .panic
+    | .oom => .oom
+    | .fuel => .fuel
 
 /-- `resolve_grok_pattern`; `self` is `parse_grok_rule` (used for alias definitions). -/
 def resolvePat (aliases : List (Str × Str))
-    (self : Str → Ctx → Out Ctx) (p : Pat) (c : Ctx) : Out Ctx := do
+    (self : Str → Ctx → Out Ctx) (p : Pat) (c : Ctx) : Out Ctx :=
   let grokAlias : Option Nat := p.dest.map (fun _ => c.fields.length)
-  let c1 ← (match p.dest with
-    | some ⟨path, some f⟩ => do
-      let flt ← filterOf f
-      pure { c with fields := insertField c.fields c.fields.length ⟨path, [flt]⟩ }
-    | some ⟨path, none⟩ => pure { c with fields := insertField c.fields c.fields.length ⟨path, []⟩ }
-    | none => pure c : Out Ctx)
-  let name := p.fn.name
-  -- `parse_alias`
-  let parseAlias (def_ : Str) (c : Ctx) : Out Ctx :=
-    if c.stack.contains name then
-      .err (.circular (c.stack.headD []))
-    else do
-      let c' ← self def_ { c with stack := c.stack ++ [name] }
-      pure { c' with stack := c'.stack.dropLast }
-  match lookupAlias aliases name with
-  | some def_ =>
-    match grokAlias with
-    | some g => do
-      let c2 ← parseAlias def_ (c1.append (cs!"(?<" ++ grokName g ++ cs!">"))
-      pure (c2.append cs!")")
-    | none => parseAlias def_ c1
-  | none =>
-    let n := name
-    if n = cs!"regex" || n = cs!"date" || n = cs!"boolean" then do
-      let c2 := match grokAlias with
-        | some g => c1.append (cs!"(?<" ++ grokName g ++ cs!">")
-        | none => c1.append cs!"(?:"
-      let c3 ← resolveMatchFn grokAlias p c2
-      pure (c3.append cs!")")
-    else do
-      let c3 ← resolveMatchFn grokAlias p (c1.append cs!"%{")
-      let c4 := match grokAlias with
-        | some g => c3.append (':' :: grokName g)
-        | none => c3
-      pure (c4.append cs!"}")
+  match registerDest p c with
+  | .ok c1 =>
+    (match lookupAlias aliases p.fn.name with
+     | some def_ =>
+       (match grokAlias with
+        | some _ =>
+          (match parseAlias self p.fn.name def_ (openGroup grokAlias c1) with
+           | .ok c2 => .ok (c2.append cs!")")
+           | .err e => .err e
+           | .panic => .panic
+           | .oom => .oom
+           | .fuel => .fuel)
+        | none => parseAlias self p.fn.name def_ c1)
+     | none => resolveBuiltin grokAlias p c1)
+  | .err e => .err e
+  | .panic => .panic
+  | .oom => .oom
+  | .fuel => .fuel
 
 /-- the loop of `parse_grok_rule` over the pieces of a rule. -/
 def resolvePieces (P : Prims) (aliases : List (Str × Str))
